@@ -1,6 +1,6 @@
 """Property -> rules wiring and MANIFEST metadata."""
 from . import facts
-from .rules import f5_trace, f6_kinds, f7_roots, f4_gc, f4_chan, f4_sched, f4_vm, f1_isa, f9_casts
+from .rules import f5_trace, f6_kinds, f7_roots, f4_gc, f4_chan, f4_sched, f4_vm, f1_isa, f9_casts, f10_parity
 
 
 def D(rec):
@@ -63,6 +63,27 @@ def SY(rec):
     return S
 
 
+def c10(rec, tier):
+    F = D(rec)
+    f10_parity.run_forwarding(rec, F)
+
+
+def c14(rec, tier):
+    F = D(rec)
+    S = SY(rec)
+    res = f10_parity.run_config_builds(rec, tier)
+    U, B = f10_parity.run_parity(rec, S)
+    f10_parity.run_number_equality(rec, F, "unboxed")
+    if "nan_boxing" in res:
+        NB = res["nan_boxing"]
+        f10_parity.run_number_equality(rec, NB, "boxed")
+        f6_kinds.run(rec, NB)
+        if tier == "thorough":
+            f5_trace.run(rec, NB)
+            f10_parity.run_forwarding(rec, NB)
+    f10_parity.run_tag_algebra(rec, S, B)
+
+
 def c11(rec, tier):
     F = D(rec)
     S = SY(rec)
@@ -102,7 +123,7 @@ def c19(rec, tier):
     f4_vm.diagnostics_gate(rec, F)
 
 
-CHECKS = {"C05": c05, "C06": c06, "C11": c11, "C07": c07, "C08": c08, "C09": c09, "C15": c15, "C16": c16, "C17": c17, "C18": c18, "C19": c19, "C20": c20}
+CHECKS = {"C05": c05, "C06": c06, "C10": c10, "C11": c11, "C14": c14, "C07": c07, "C08": c08, "C09": c09, "C15": c15, "C16": c16, "C17": c17, "C18": c18, "C19": c19, "C20": c20}
 
 META = {
     "C06": {
@@ -128,6 +149,18 @@ META = {
         "note": "The totality clause of C15 is not decided; see DESIGN.md §3 C15.",
         "technique": "static analysis: dominating-guard extraction and reachability on MIR",
         "design_ref": "DESIGN.md §3 C15",
+    },
+    "C10": {
+        "text": "Forwarding contradiction decided structurally: a relocation mechanism exists (mark_moved reached only from List::grow) and List == List resolves the forwarding pointer, while Value == Value / Hash for Value compare the raw address; every native that grows its receiver list tests has_moved and rescans the roots on that edge. Alias visibility across containers as a history property is declined.",
+        "note": "Decides the structural necessary condition only.",
+        "technique": "static analysis: call-graph reachability + dominating-guard extraction on MIR",
+        "design_ref": "DESIGN.md §3 C10",
+    },
+    "C14": {
+        "text": "Both feature configurations type-check (the nan-boxed one is never built by the pinned suite); mod boxed / mod unboxed expose the same items, From<T> set, constants and traits; number equality and hashing are f64-based in each representation; the boxed tag algebra is decided by constant folding and cube predicates over the 64-bit word (tags distinct, inside quiet-NaN space, object tag in bits >= 48, no small tag passes the object/number tests, constructor/test/destructor compose to the identity, kind()'s switch covers the four tags); kind tables hold in the nan-boxed configuration too. Output equality over programs (needs both builds run) is declined.",
+        "note": "Assumes heap pointers fit in 48 bits and arithmetic yields only the default quiet NaN.",
+        "technique": "static analysis: second-configuration type check, syntactic item parity, constant folding + bit-cube predicate evaluation, MIR inspection of PartialEq/Hash",
+        "design_ref": "DESIGN.md §3 C14",
     },
     "C11": {
         "text": "Index discipline: every f64->usize cast in laythe_lib on an argument-derived value is dominated by an integrality test (necessary for 'fractional arguments raise and leave the receiver unchanged'); native argument contract (casts justified by declared kinds or dominating tests; arity enforcement siblings). Everything that is a function on values (sequence/map/stream semantics, Unicode indexing) is declined: no static argument in reach.",
